@@ -897,12 +897,14 @@ def slow_case(kind, slow, reply, bulk, resume, order):
         if w.pair.c._transport is None or w.pair.s._transport is None:
             viol.append(('connection-lost', 'the SSH connection ended: client %r server %r' % (
                 getattr(w.pair.client_owner, 'lost_exc', None), getattr(w.pair.server_owner, 'lost_exc', None))))
-        if S.data != rdata:
-            viol.append(('relay-mismatch', 'the slow end received %d of %d bytes (prefix ok: %s)' % (len(S.data), len(rdata), rdata.startswith(S.data))))
+        skip = socks_prefix_len(kind)
+        got = lambda e: e.data[skip:] if e is A else e.data      # a SOCKS client first gets the proxy's reply
+        if got(S) != rdata:
+            viol.append(('relay-mismatch', 'the slow end received %d of %d bytes (prefix ok: %s)' % (len(got(S)), len(rdata), rdata.startswith(got(S)))))
         if not S.eof and not S.lost:
             viol.append(('eof-not-propagated', 'the slow end never saw the half-close'))
-        if len(F.data) != bulk or F.data[:32768] != chunk[:min(bulk, 32768)]:
-            viol.append(('relay-mismatch', 'the fast end received %d of %d uploaded bytes' % (len(F.data), bulk)))
+        if len(got(F)) != bulk or got(F)[:32768] != chunk[:min(bulk, 32768)]:
+            viol.append(('relay-mismatch', 'the fast end received %d of %d uploaded bytes' % (len(got(F)), bulk)))
         if not F.eof and not F.lost:
             viol.append(('eof-not-propagated', 'the fast end never saw the half-close of the upload'))
         ra, rb = relay_side(A), relay_side(B)
